@@ -15,7 +15,7 @@ from pvm.mon.invariants import net_invariant
 
 META = dict(
     shards={"quick": 8, "thorough": 16},
-    budget={"quick": 30, "thorough": 420},
+    budget={"quick": 45, "thorough": 480},
     timeout={"quick": 600, "thorough": 3000},
     rule=("cases: (1) ClimateNetwork / CoupledClimateNetwork on seeded "
           "similarity matrices with entries k/64, |k|<=64 (exact in float32; "
@@ -23,7 +23,11 @@ META = dict(
           "common), N=2..9 (quick) / ..16 (thorough), input classes: symmetric "
           "with diagonal = maximum (main class, undirected or directed), "
           "symmetric with arbitrary diagonal (reported under "
-          "':arbitrary-diagonal'), asymmetric with directed=True; clustered "
+          "':arbitrary-diagonal'), asymmetric with directed=True, and a "
+          "float-valued symmetric class (uniform float64 entries, unit "
+          "diagonal, duplicated pairs) whose thresholds also sit at relative "
+          "distance 3e-5 from an occurring value (far above float32 "
+          "spacing, far below float16 spacing); clustered "
           "geographic grids (node pairs 0..0.3 rad apart so that the "
           "tanh damping matters) ; non_local on/off.  Per case: constructor "
           "with threshold and with link_density; an increasing sweep of "
@@ -48,8 +52,11 @@ META = dict(
           "and (non_local off) rho - realised <= #{off-diagonal entries "
           "equal to the selected threshold}/(N^2-N) (+1e-9).  (2) data-derived "
           "subclasses Tsonis, Spearman, PartialCorrelation, MutualInfo, "
-          "Hilbert (undirected and directed), Havlin, Rainfall, "
-          "CoupledTsonis on random ClimateData (T=24..60, N=4..9, cycle 12, "
+          "Hilbert (undirected and directed; for the directed one the "
+          "oracle is rule AND phase_shift()>0, the class's documented "
+          "directionality), Havlin, Rainfall, CoupledTsonis, "
+          "EventSeriesClimateNetwork (ES/ECA, all symmetrisations, "
+          "constructor threshold fixed at 0) on random ClimateData (T=24..60, N=4..9, cycle 12, "
           "winter_only=False): same monitors against the object's own "
           "similarity_measure(), thresholds placed mid-way between distinct "
           "similarity values that are > 1e-3 (relative) apart, constructor "
@@ -57,25 +64,55 @@ META = dict(
           "set_link_density / set_non_local.  non-trivial = distinct "
           "(similarity, grid, non_local, threshold) state whose oracle "
           "adjacency has both a linked and an unlinked off-diagonal pair."),
-    floors={"quick": {"states_checked": 6000, "strict_ties_exercised": 800,
-                      "monotone_steps": 2000, "density_bound_checked": 1500,
-                      "density_with_ties": 300, "nonlocal_effective": 300,
-                      "history_steps": 600, "directed_asymmetric_states": 500,
-                      "negative_similarity_states": 2000,
-                      "ctor_link_density": 150,
-                      "coupled_states": 300, "subclass_states": 600,
-                      "subclass_density_checked": 100},
-            "thorough": {"states_checked": 60000,
-                         "strict_ties_exercised": 8000,
-                         "monotone_steps": 20000,
-                         "density_bound_checked": 15000,
-                         "density_with_ties": 3000,
-                         "nonlocal_effective": 3000, "history_steps": 6000,
-                         "directed_asymmetric_states": 5000,
-                         "negative_similarity_states": 20000,
-                         "ctor_link_density": 1500,
-                         "coupled_states": 3000, "subclass_states": 6000,
-                         "subclass_density_checked": 1000}},
+    floors={"quick": {"states_checked": 20000, "strict_ties_exercised": 6000,
+                      "monotone_steps": 8000, "density_bound_checked": 6000,
+                      "density_with_ties": 2000, "nonlocal_effective": 3000,
+                      "history_steps": 3000, "history:set_non_local": 900,
+                      "directed_asymmetric_states": 5000,
+                      "negative_similarity_states": 12000,
+                      "ctor_link_density": 900, "coupled_states": 1000,
+                      "direct_nonlocal_compared": 300,
+                      "float_valued_cases": 100,
+                      "near_threshold_states": 400,
+                      "subclass_states": 4000,
+                      "subclass_density_checked": 1500,
+                      "subclass_states:TsonisClimateNetwork": 400,
+                      "subclass_states:SpearmanClimateNetwork": 400,
+                      "subclass_states:PartialCorrelationClimateNetwork": 400,
+                      "subclass_states:MutualInfoClimateNetwork": 400,
+                      "subclass_states:HilbertClimateNetwork": 400,
+                      "subclass_states:HilbertClimateNetwork:directed": 100,
+                      "subclass_states:HavlinClimateNetwork": 400,
+                      "subclass_states:RainfallClimateNetwork": 400,
+                      "subclass_states:CoupledTsonisClimateNetwork": 400,
+                      "subclass_states:EventSeriesClimateNetwork": 300},
+            "thorough": {"states_checked": 300000,
+                         "strict_ties_exercised": 100000,
+                         "monotone_steps": 100000,
+                         "density_bound_checked": 100000,
+                         "density_with_ties": 60000,
+                         "nonlocal_effective": 60000, "history_steps": 60000,
+                         "history:set_non_local": 20000,
+                         "directed_asymmetric_states": 80000,
+                         "negative_similarity_states": 200000,
+                         "ctor_link_density": 12000, "coupled_states": 14000,
+                         "direct_nonlocal_compared": 4000,
+                         "float_valued_cases": 1200,
+                         "near_threshold_states": 5000,
+                         "subclass_states": 50000,
+                         "subclass_density_checked": 20000,
+                         "subclass_states:TsonisClimateNetwork": 6000,
+                         "subclass_states:SpearmanClimateNetwork": 6000,
+                         "subclass_states:PartialCorrelationClimateNetwork":
+                             6000,
+                         "subclass_states:MutualInfoClimateNetwork": 5000,
+                         "subclass_states:HilbertClimateNetwork": 6000,
+                         "subclass_states:HilbertClimateNetwork:directed":
+                             1500,
+                         "subclass_states:HavlinClimateNetwork": 6000,
+                         "subclass_states:RainfallClimateNetwork": 6000,
+                         "subclass_states:CoupledTsonisClimateNetwork": 6000,
+                         "subclass_states:EventSeriesClimateNetwork": 4500}},
     exhaustive_subspaces={"quick": [], "thorough": []},
     assumptions=[
         "similarities and prescribed thresholds are multiples of 1/128 with "
@@ -171,6 +208,7 @@ class Model:
         self.dmax = diag_is_max(self.S32)
         self.neg = False
         self.dead = False          # a root-cause event was recorded: stop
+        self.near = False          # float-valued class: use near thresholds
 
     def icls(self, density=False):
         s = ""
@@ -301,6 +339,10 @@ def check_state(ctx, net, m, op, cid, hist=None):
                         m.directed))
     if not m.nl and bool(np.any((m.S32 == np.float32(th)) & off)):
         ctx.count("strict_ties_exercised")
+    if m.near and not m.nl:
+        rel = np.abs(m.S32[off].astype(np.float64) - float(th))
+        if np.any((rel > 0) & (rel <= 2 * NEAR * max(abs(float(th)), 1e-9))):
+            ctx.count("near_threshold_states")
     if m.nl and not np.array_equal(R, m.oracle(theta=th, nl=False)[0]):
         ctx.count("nonlocal_effective")
     return B
@@ -363,7 +405,20 @@ def clustered_latlon(rng, n):
 
 
 def similarity(rng, n, kind):
-    """kind: 'sym-max' | 'sym-arb' | 'asym'.  Values k/64."""
+    """kind: 'sym-max' | 'sym-arb' | 'asym' (values k/64) | 'float'
+    (symmetric, unit diagonal, float64 values that are not float32 numbers,
+    a few duplicated pairs)."""
+    if kind == "float":
+        K = rng.uniform(-1, 1, (n, n))
+        K = np.triu(K, 1)
+        iu = np.argwhere(K != 0)
+        for _ in range(int(rng.integers(0, 3))):
+            if len(iu) >= 2:
+                a, b = iu[rng.integers(0, len(iu), 2)]
+                K[tuple(a)] = K[tuple(b)] * rng.choice([-1, 1])
+        K = K + K.T
+        np.fill_diagonal(K, 1.0)
+        return K
     levels = int(rng.choice([3, 9, 129]))
     if levels == 129:
         vals = np.arange(-64, 65)
@@ -400,9 +455,18 @@ def typed(rng, t):
     return np.float32(t)
 
 
-def grid_threshold(rng, S32=None):
-    """on-grid (tests strictness) or mid-grid (robust) threshold."""
+NEAR = 3e-5     # >> float32 spacing (6e-8), << float16 spacing (5e-4)
+
+
+def grid_threshold(rng, S32=None, near=False):
+    """on-grid (tests strictness) or mid-grid (robust) threshold; near=True
+    (float-valued similarities): also thresholds at relative distance 3e-5
+    from an occurring value, which any storage coarser than float32 would
+    confuse with that value."""
     r = rng.random()
+    if near and S32 is not None and rng.random() < 0.5:
+        v = float(rng.choice(np.asarray(S32, dtype=np.float64).ravel()))
+        return v * (1 + NEAR * (1 if rng.random() < 0.5 else -1))
     if S32 is not None and r < 0.45:
         return float(rng.choice(np.asarray(S32, dtype=np.float64).ravel()))
     k = int(rng.integers(-1, 65))
@@ -502,7 +566,7 @@ def history(ctx, rng, net, m, length, cid):
             if m.sub:
                 arg = sub_threshold(rng, m.S32)
             else:
-                arg = typed(rng, grid_threshold(rng, m.S32))
+                arg = typed(rng, grid_threshold(rng, m.S32, m.near))
             if arg is None:
                 name, arg = "set_link_density", float(rng.uniform(0, 1))
         elif r < 0.7:
@@ -532,7 +596,8 @@ def base_case(ctx, k, cid):
     nmax = 16 if ctx.thorough else 9
     n = int(rng.integers(2, nmax + 1))
     kind = str(rng.choice(["sym-max", "sym-max", "sym-max", "sym-arb",
-                           "asym", "asym"]))
+                           "asym", "asym", "float"]))
+    near = kind == "float"
     directed = True if kind == "asym" else bool(rng.random() < 0.15)
     coupled = n >= 2 and rng.random() < 0.2
     nl0 = bool(rng.random() < 0.4)
@@ -545,7 +610,7 @@ def base_case(ctx, k, cid):
     S_before = S.copy()
 
     # (a) constructor with a threshold
-    t0 = typed(rng, grid_threshold(rng, S32))
+    t0 = typed(rng, grid_threshold(rng, S32, near))
     ok, net = build_base(ctx, rng, coupled, lat, lon, S, threshold=t0,
                          non_local=nl0, directed=directed)
     D = None
@@ -554,6 +619,9 @@ def base_case(ctx, k, cid):
     m = Model(cname, S32, D if D is not None else np.zeros((n, n)), directed,
               nl0)
     m.neg = bool((S < 0).any())
+    m.near = near
+    if near:
+        ctx.count("float_valued_cases")
     if not ok:
         ctx.violation(f"{cname}.__init__:raises:{type(net).__name__}"
                       + m.icls(), {"S": S, "threshold": t0, "non_local": nl0,
@@ -577,7 +645,13 @@ def base_case(ctx, k, cid):
                                              replace=False))
     cand.update(float(int(v * G) / G + 1 / 128.0)
                 for v in rng.choice(vals, min(len(vals), 4), replace=False))
+    if near:
+        cand.update(float(v) * (1 + NEAR * sg) for sg in (-1, 1)
+                    for v in rng.choice(vals, min(len(vals), 3),
+                                        replace=False))
     ths = [typed(rng, t) for t in sorted(cand)]
+    ths = [t for i, t in enumerate(ths)
+           if i == 0 or float(t) > float(ths[i - 1])]
     sweep(ctx, net, m, ths, cid)
     if coupled:
         ctx.count("coupled_states", len(ths))
@@ -597,6 +671,7 @@ def base_case(ctx, k, cid):
                           non_local=nl1, directed=directed)
     m2 = Model(cname, S32, D, directed, nl1)
     m2.neg = m.neg
+    m2.near = near
     if not ok:
         ctx.violation(f"{cname}.__init__:raises:{type(net2).__name__}"
                       + m2.icls(True), {"S": S, "link_density": rho,
@@ -609,7 +684,7 @@ def base_case(ctx, k, cid):
             check_density(ctx, net2, m2, rho, "__init__", cid)
 
     # (d) toggling the damping at a fixed threshold and back
-    t1 = typed(rng, grid_threshold(rng, S32))
+    t1 = typed(rng, grid_threshold(rng, S32, near))
     if setter(ctx, net, m, "set_threshold", t1, cid, None):
         B0 = check_state(ctx, net, m, "set_threshold", cid)
         for flag in (not m.nl, not (not m.nl)):
@@ -629,7 +704,7 @@ def base_case(ctx, k, cid):
     if rng.random() < 0.5:
         a = float(rng.choice([5.0, 10.0, 20.0, 30.0]))
         dmin = float(rng.choice([0.0, 0.05, 0.1, 0.2]))
-        t = typed(rng, grid_threshold(rng, S32))
+        t = typed(rng, grid_threshold(rng, S32, near))
         ok, A = ctx.call(net._calculate_non_local_adjacency, S32.copy(), t,
                          a=a, d_min=dmin)
         ctx.evals(1)
@@ -771,9 +846,9 @@ def sub_case(ctx, k, cid):
                                    "max_rel_asymmetry":
                                    float(np.max(d / np.maximum(m.S32, 1e-30)))},
                       cid)
-    if m.S32.dtype != np.float32 or bool((m.S32 < 0).any()):
-        ctx.violation(f"{cname}.similarity_measure:not-abs-float32" + sfx,
-                      {"dtype": str(m.S32.dtype)}, cid)
+    if bool((m.S32 < 0).any()):
+        ctx.violation(f"{cname}.similarity_measure:negative-entries" + sfx,
+                      {"min": float(m.S32.min())}, cid)
         return
     # (a) constructor with thresholds between the distinct values
     for rep in range(2):
